@@ -34,11 +34,25 @@ Proof.
 Qed.
 Lemma map_res_noo {A B} (f : A -> result B) : (forall x, noo (f x)) -> forall l, noo (map_res f l).
 Proof. intros H. induction l as [|x l IH]; cbn [map_res]; [apply noo_ok|]. apply noo_bind; [apply H|]. intros y. apply noo_bind; [exact IH|]. intros; apply noo_ok. Qed.
+Lemma strict_field_noo n st : noo st -> noo (strict_field n st).
+Proof. intros H. unfold strict_field. apply noo_bind; [exact H|]. intros [c r]. destruct (r <? n); [unfold noo; discriminate | apply noo_ok]. Qed.
+Lemma lenient_field_noo n st : noo st -> noo (lenient_field n st).
+Proof. intros H. unfold lenient_field. apply noo_bind; [exact H|]. intros [c r]. apply noo_ok. Qed.
+Lemma config_len_noo l : noo (config_len l).
+Proof.
+  unfold config_len. apply noo_bind; [apply pu32_noo|]. intros [size ?]. cbv zeta. apply noo_bind; [|intros [c r]; apply noo_ok].
+  repeat match goal with
+  | |- noo (if ?b then _ else _) => destruct b
+  | |- noo (strict_field _ _) => apply strict_field_noo
+  | |- noo (lenient_field _ _) => apply lenient_field_noo
+  | |- noo (Ok _) => apply noo_ok
+  end.
+Qed.
 Lemma parse_type_chunk_noo buf start pkg : noo (parse_type_chunk buf start pkg).
 Proof.
   unfold parse_type_chunk. apply noo_bind; [apply pu16_noo|]. intros [? ?]. apply noo_bind; [apply pu16_noo|]. intros [? ?]. apply noo_bind; [apply pu32_noo|]. intros [? ?].
   apply noo_bind; [apply u8_noo|]. intros [? ?]. apply noo_bind; [apply u8_noo|]. intros [? ?]. apply noo_bind; [apply pu16_noo|]. intros [? ?].
-  apply noo_bind; [apply pu32_noo|]. intros [? ?]. apply noo_bind; [apply pu32_noo|]. intros [? ?]. apply noo_bind; [apply read_offsets_noo|]. intros offs.
+  apply noo_bind; [apply pu32_noo|]. intros [? ?]. apply noo_bind; [apply pu32_noo|]. intros [? ?]. apply noo_bind; [apply config_len_noo|]. intros clen. apply noo_bind; [apply read_offsets_noo|]. intros offs.
   apply noo_bind; [apply map_res_noo; intros; apply parse_entry_noo|]. intros; apply noo_ok.
 Qed.
 Lemma pool_at_noo buf after size : noo (pool_at buf after size).  Proof. apply parse_pool_noo. Qed.
@@ -47,16 +61,17 @@ Lemma pool_at_noo buf after size : noo (pool_at buf after size).  Proof. apply p
 Lemma header_noo buf pos e : 0 <= pos -> noo (arsc_header buf pos e).
 Proof. intros H. exact (arsc_header_ends buf pos e H). Qed.
 
-Lemma package_chunks_noo buf pend pkgid : forall fuel pos acc, 0 <= pos -> need buf pos <= Z.of_nat fuel -> noo (package_chunks fuel buf pos pend pkgid acc).
+Lemma package_chunks_noo buf tpool pend pkgid : forall fuel pos acc, 0 <= pos -> need buf pos <= Z.of_nat fuel -> noo (package_chunks fuel buf tpool pos pend pkgid acc).
 Proof.
   induction fuel as [|f IH]; intros pos acc H0 Hn; [unfold need in Hn; lia|]. cbn [package_chunks]. destruct (pend - 8 <? pos); [apply noo_ok|].
   pose proof (header_noo buf pos 0 H0) as N. destruct (arsc_header buf pos 0) as [h|e] eqn:EH; cbn [bind]; [|unfold noo in *; intros X; apply N; injection X as ->; reflexivity].
   destruct h as [|ty [|hs [|sz [|start [|after [|? ?]]]]]]; try (unfold noo; discriminate).
   destruct (arsc_header_facts _ _ _ _ _ _ _ _ H0 EH) as (-> & F1 & F2 & F3).
-  assert (Next : forall acc', noo (package_chunks f buf (pos + sz) pend pkgid acc')) by (intros; apply IH; unfold need in *; lia).
+  assert (Next : forall acc', noo (package_chunks f buf tpool (pos + sz) pend pkgid acc')) by (intros; apply IH; unfold need in *; lia).
   destruct (pend <? pos + sz); [apply noo_ok|]. destruct (ty =? RES_TABLE_TYPE_SPEC).
   - apply noo_bind; [apply u8_noo|]. intros [? ?]. apply noo_bind; [apply u8_noo|]. intros [? ?]. apply noo_bind; [apply pu16_noo|]. intros [? ?]. apply Next.
-  - destruct (ty =? RES_TABLE_TYPE); [|apply Next]. apply noo_bind; [apply parse_type_chunk_noo|]. intros t. apply Next.
+  - destruct (ty =? RES_TABLE_TYPE); [|apply Next]. apply noo_bind; [apply u8_noo|]. intros [tid ?]. apply noo_bind; [apply get_string_noo|]. intros _.
+    apply noo_bind; [apply parse_type_chunk_noo|]. intros t. apply Next.
 Qed.
 Lemma noo_bind_eq {A B} (a : result A) (f : A -> result B) : noo a -> (forall x, a = Ok x -> noo (f x)) -> noo (bind a f).
 Proof. unfold noo. destruct a as [x|e]; cbn [bind]; [intros _ H; now apply H | intros H _ X; apply H; congruence]. Qed.
@@ -103,7 +118,7 @@ Proof.
   apply noo_bind_eq; [apply header_noo; lia|]. intros th ET.
   destruct th as [|? [|? [|tsz [|? [|tafter [|? ?]]]]]]; try (unfold noo; discriminate).
   destruct (arsc_header_sizes _ _ _ _ _ _ _ _ ET) as [_ Ft].
-  apply noo_bind; [apply pool_at_noo|]. intros _.
+  apply noo_bind; [apply pool_at_noo|]. intros tpool.
   apply noo_bind_eq; [apply header_noo; lia|]. intros kh EK.
   destruct kh as [|? [|? [|ksz [|? [|kafter [|? ?]]]]]]; try (unfold noo; discriminate).
   destruct (arsc_header_sizes _ _ _ _ _ _ _ _ EK) as [_ Fk].
